@@ -39,6 +39,7 @@ static void do_fp()
         std::fill(in->_rms.data(), in->_rms.data() + in->_rms.num_elements(), 0);
         std::fill(in->_filling.begin(), in->_filling.end(), 0);
         in->_integral = 0;
+        for (size_t i = 0; i < tot; i++) out->getData()[i] = -12345.0f;      // a cell the second application leaves unwritten shows up
         fpm.apply();
         size_t nd = 0, first = 0;
         for (size_t i = 0; i < tot; i++)
